@@ -95,6 +95,14 @@ def W9_pairing(rep, flow: Flow):
                     for v in ho.fields.values():
                         if isinstance(v, Ref) and r.heap[v.oid].kind == "list":
                             rec_lists.add(v.oid)
+            # WHICH of the record's lists: circuits for get_mub_circuits, bases for get_mubs
+            src_oid = o.oid if o.oid in rec_lists else (o.meta.get("elementwise_of") if o.meta.get("elementwise_of") in rec_lists else None)
+            if src_oid is not None:
+                se = r.heap[src_oid].elem
+                holds_circuits = isinstance(se, Ref) and r.heap[se.oid].kind == "circuit"
+                if holds_circuits != (field == "circuits"):
+                    rep.finding("W9", f"{fq}:other-list", f"{f.module.rel} {f.qualname}: returns the record's list of {'circuits' if holds_circuits else 'bases'}, not its list of {field}")
+                    continue
             perm = o.meta.get("permuted") or o.meta.get("filtered")
             srcs = _order_sources(f)
             same = o.oid in rec_lists
